@@ -55,14 +55,16 @@ theorem unquoteToks_append_raw (U : List UInt8) {c : Char} (hsp : c ≠ ' ') (ta
 
 /-- the safe unquoters treat what precedes and what follows a raw delimiter independently -/
 theorem safelyUnquote_append_sep (U : List UInt8) {c : Char} (hc : Sep c) (hsp : c ≠ ' ')
-    (a b : Str) :
+    (hst : staysEscaped c = false) (a b : Str) :
     safelyUnquote U (a ++ c :: b) = safelyUnquote U a ++ c :: safelyUnquote U b := by
   unfold safelyUnquote
-  rw [tokens_append_sep hc, unquoteToks_append_raw U hsp, render_append]
+  rw [tokens_append_sep hc, escapeRaw_append, escapeRaw_cons, escTok_raw hst]
+  simp only [List.singleton_append]
+  rw [unquoteToks_append_raw U hsp, render_append]
   simp [renderTok]
 
 theorem safelyUnquote_join (U : List UInt8) {c : Char} (hc : Sep c) (hsp : c ≠ ' ')
-    (parts : List Str) (hne : parts ≠ []) :
+    (hst : staysEscaped c = false) (parts : List Str) (hne : parts ≠ []) :
     safelyUnquote U (join [c] parts) = join [c] (parts.map (safelyUnquote U)) := by
   induction parts with
   | nil => exact absurd rfl hne
@@ -72,7 +74,7 @@ theorem safelyUnquote_join (U : List UInt8) {c : Char} (hc : Sep c) (hsp : c ≠
     | cons q qs =>
       simp only [join, List.map_cons]
       have : p ++ [c] ++ join [c] (q :: qs) = p ++ c :: join [c] (q :: qs) := by simp
-      rw [this, safelyUnquote_append_sep U hc hsp, ih (by simp)]
+      rw [this, safelyUnquote_append_sep U hc hsp hst, ih (by simp)]
       simp [join]
 
 /-- an unsafe ASCII delimiter that does not occur raw in the input does not occur in the
@@ -82,7 +84,7 @@ theorem not_mem_safelyUnquote (U : List UInt8) {c : Char} (hc : Sep c) (hlt : c.
   intro hmem
   simp only [safelyUnquote, render, List.mem_flatMap] at hmem
   obtain ⟨t, ht, hch⟩ := hmem
-  have := outTok_unquoteToks U (tokens s) (wf_tokens s) t ht
+  have := outTok_unquoteToks U (escapeRaw (tokens s)) (wf_escapeRaw (wf_tokens s)) t ht
   cases this with
   | input c' hc' _ =>
     simp only [renderTok, List.mem_singleton] at hch
@@ -90,7 +92,7 @@ theorem not_mem_safelyUnquote (U : List UInt8) {c : Char} (hc : Sep c) (hlt : c.
     apply hs
     rw [← render_tokens s]
     simp only [render, List.mem_flatMap]
-    exact ⟨_, hc', by simp [renderTok]⟩
+    exact ⟨_, (raw_mem_escapeRaw hc').1, by simp [renderTok]⟩
   | esc h1 h2 a b =>
     simp only [renderTok, List.mem_cons, List.not_mem_nil, or_false] at hch
     rcases hch with h | h | h
@@ -116,7 +118,7 @@ theorem splitOn_safelyUnquote (U : List UInt8) {c : Char} (hc : Sep c) (hsp : c 
   have h1 : s = join [c] (splitOn s c) := (join_splitOn c s).symm
   have hne := splitOn_ne_nil s c
   conv => lhs; rw [h1]
-  rw [safelyUnquote_join U hc hsp _ hne]
+  rw [safelyUnquote_join U hc hsp (staysEscaped_of_lt hlt) _ hne]
   apply splitOn_join
   · simpa using hne
   · intro p hp
